@@ -7,5 +7,5 @@ cd gen
 rm -f *.ml *.mli *.cm* *.o
 timeout 600 coqc -Q ../../coq EPD ../../coq/Extract.v > /dev/null
 cd ..
-FILES=$(ocamlfind ocamldep -sort -I gen gen/*.ml gen/*.mli util.ml big.ml pure.ml driver.ml)
+FILES=$(ocamlfind ocamldep -sort -I gen gen/*.ml gen/*.mli util.ml big.ml pure.ml orc.ml driver.ml)
 timeout 900 ocamlfind ocamlopt -w -a -I gen $FILES -o driver
